@@ -377,6 +377,22 @@ func eqStr(a, b []string) bool {
 	return true
 }
 
+func subsetStr(a, b []string) bool {
+	m := map[string]bool{}
+	for _, x := range b {
+		m[x] = true
+	}
+	for _, x := range a {
+		if !m[x] {
+			return false
+		}
+	}
+	return true
+}
+
+func prefixStr(a, b []string) bool { return len(a) <= len(b) && eqStr(a, b[:len(a)]) }
+func prefixInt(a, b []int) bool    { return len(a) <= len(b) && eqInt(a, b[:len(a)]) }
+
 func eqInt(a, b []int) bool {
 	if len(a) != len(b) {
 		return false
@@ -402,6 +418,10 @@ func (w *vWorld) waitFor(exp vExp, redeliver func()) string {
 		w.mu.Unlock()
 		if eqStr(o.reqs, want) && eqStr(o.selfq, exp.Selfq) && eqInt(o.dlv, exp.Dlv) {
 			break
+		}
+		// outputs that the model does not have can never go away again: no point in waiting for the deadline
+		if !(subsetStr(o.reqs, want) && prefixStr(o.selfq, exp.Selfq) && prefixInt(o.dlv, exp.Dlv)) && time.Now().After(deadline.Add(-vStepLimit).Add(100*time.Millisecond)) {
+			deadline = time.Now().Add(-time.Second)
 		}
 		if time.Now().After(deadline) {
 			return fmt.Sprintf("interface state differs: requests real=%v model=%v; self messages real=%v model=%v; AddBlock sequence real=%v model=%v",
@@ -900,6 +920,8 @@ func TestVerifSyncer(t *testing.T) {
 	sem := make(chan struct{}, par)
 	var divMu sync.Mutex
 	divergences := 0
+	badRuns := 0
+	skipped := 0
 	for bi := range in.Behaviours {
 		b := &in.Behaviours[bi]
 		wg.Add(1)
@@ -907,6 +929,15 @@ func TestVerifSyncer(t *testing.T) {
 		go func(bi int) {
 			defer wg.Done()
 			defer func() { <-sem }()
+			divMu.Lock()
+			stop := badRuns >= 40
+			if stop {
+				skipped++
+			}
+			divMu.Unlock()
+			if stop { // the verdict is settled; do not spend hours on a broken tree
+				return
+			}
 			seed := verifkit.Seed()*7919 + int64(bi)
 			var r vRunResult
 			to := 150 * time.Millisecond
@@ -921,6 +952,11 @@ func TestVerifSyncer(t *testing.T) {
 			if bi < 2 {
 				res.Sample(map[string]interface{}{"behaviour": b.ID, "chains": b.Ch, "steps": len(b.Steps)})
 			}
+			if len(r.viol) > 0 || r.diverged != "" {
+				divMu.Lock()
+				badRuns++
+				divMu.Unlock()
+			}
 			for _, v := range r.viol {
 				res.Violate(v.sig, map[string]interface{}{"behaviour": b, "seed": seed, "step": r.step, "log": r.log}, "%s\n(behaviour %s, chains %+v)", v.text, b.ID, b.Ch)
 			}
@@ -934,5 +970,6 @@ func TestVerifSyncer(t *testing.T) {
 	}
 	wg.Wait()
 	res.Extra["divergences"] = divergences
+	res.Extra["skipped"] = skipped
 	res.Extra["behaviours"] = len(in.Behaviours)
 }
